@@ -93,6 +93,31 @@ def _falloc(shape, fill):
     return a
 
 
+def _plain_dtype(dtype):
+    from .proxy import _unshadow
+    try:
+        return _unshadow(dtype)
+    except Exception:
+        return dtype
+
+
+def _is_int_dtype(dtype):
+    """an integer dtype (the builtin int - possibly its shadow class - or a NumPy integer type): stores truncate"""
+    dt = _plain_dtype(dtype)
+    if dt is bool or dt is _np.bool_:
+        return False
+    try:
+        return _np.issubdtype(_np.dtype(dt), _np.integer)
+    except Exception:
+        return False
+
+
+def _ialloc(shape, fill):
+    a = _np.empty(shape, dtype=object).view(IArr)
+    a.fill(int(fill))
+    return a
+
+
 def _is_float_dtype(dtype):
     if dtype is None or dtype in (float, _np.double, _np.float64):
         return True
@@ -121,12 +146,16 @@ class _Shim:
     def zeros(self, shape, dtype=float, **kw):
         if _is_float_dtype(dtype):
             return _falloc(shape, 0.0)
-        return _np.zeros(shape, dtype=dtype, **kw)
+        if _is_int_dtype(dtype):
+            return _ialloc(shape, 0)
+        return _np.zeros(shape, dtype=_plain_dtype(dtype), **kw)
 
     def ones(self, shape, dtype=float, **kw):
         if _is_float_dtype(dtype):
             return _falloc(shape, 1.0)
-        return _np.ones(shape, dtype=dtype, **kw)
+        if _is_int_dtype(dtype):
+            return _ialloc(shape, 1)
+        return _np.ones(shape, dtype=_plain_dtype(dtype), **kw)
 
     def empty(self, shape, dtype=float, **kw):
         return self.zeros(shape, dtype=dtype, **kw)
@@ -153,7 +182,11 @@ class _Shim:
     def full(self, shape, fill_value, dtype=None, **kw):
         if _is_float_dtype(dtype) or (dtype is None and (isinstance(fill_value, (float, Sym)))):
             return _falloc(shape, fill_value)
-        return _np.full(shape, fill_value, dtype=dtype, **kw)
+        if dtype is not None and _is_int_dtype(dtype):
+            r = _ialloc(shape, 0)
+            r[...] = fill_value
+            return r
+        return _np.full(shape, fill_value, dtype=_plain_dtype(dtype) if dtype is not None else None, **kw)
 
     def shape(self, a):
         return _np.shape(_obj(a) if has_sym(a) else a)
